@@ -318,7 +318,7 @@ def run_property(prop, tier):
     for a, b in undecided:
         print(f"UNDECIDED obligation={a} reason={str(b)[:300]}")
     for a, b in crashed:
-        print(f"CHECKER-ERROR unit={a} {str(b)[:1500]}")
+        print(f"CHECKER-ERROR unit={a} {str(b)[-1500:]}")
     print(f"{prop} {tier}: obligations={obligations} discharged={discharged} violations={violations} "
           f"undecided={len(undecided)} known_findings={len(known_reported)} paths={paths} wall={wall:.1f}s")
     if os.environ.get("PYVC_NAMES"):
